@@ -5,6 +5,7 @@ import (
 	"fmt"
 	"reflect"
 	"runtime"
+	"strings"
 	"time"
 
 	"go.sia.tech/core/gateway"
@@ -335,14 +336,16 @@ func runCodec(s *Session) string {
 	defer close(s.eb.done)
 	e := s.ea
 	type codec struct {
-		name  string
-		enc   []byte
-		fresh func() any
-		dec   func(o any, b []byte) error
-		again func(o any) []byte
-		orig  any // the value that was encoded
+		name   string
+		enc    []byte
+		fresh  func() any
+		dec    func(o any, b []byte) error
+		again  func(o any) []byte
+		orig   any    // the value that was encoded
+		second []byte // another value of the same type, encoded
 	}
 	var c codec
+	var ex2 *gwExchange
 	decP := func(o any, b []byte) error {
 		d := types.NewBufDecoder(b)
 		o.(pobj).DecodeFrom(d)
@@ -377,7 +380,16 @@ func runCodec(s *Session) string {
 				re.Type = types.Specifier{}
 			}
 		}
-		c = codec{fmt.Sprintf("rhp/v%d %T", v, o), encP(o), func() any { return mk() }, decP, func(o any) []byte { fixup(o); return encP(o.(pobj)) }, o}
+		c = codec{fmt.Sprintf("rhp/v%d %T", v, o), encP(o), func() any { return mk() }, decP, func(o any) []byte { fixup(o); return encP(o.(pobj)) }, o, nil}
+		{
+			o2 := mk()
+			fillObject(t, o2, 0, 7)
+			if t.Chance(1, 2) {
+				sparsify(t, reflect.ValueOf(o2).Elem())
+			}
+			fixup(o2)
+			c.second = encP(o2)
+		}
 	case 4:
 		r := rpcs4[t.Choose(len(rpcs4))]
 		mk := r.resp
@@ -390,22 +402,45 @@ func runCodec(s *Session) string {
 			d := types.NewBufDecoder(b)
 			rhp4.VerifDecode(d, o.(obj4))
 			return d.Err()
-		}, func(o any) []byte { return enc4(o.(obj4)) }, o}
+		}, func(o any) []byte { return enc4(o.(obj4)) }, o, nil}
+		{
+			o2 := mk()
+			fillObject(t, o2, 0, 7)
+			if t.Chance(1, 2) {
+				sparsify(t, reflect.ValueOf(o2).Elem())
+			}
+			c.second = enc4(o2)
+		}
 	default:
 		exs := buildGateway(t)
 		ex := exs[t.Choose(len(exs))]
+		// another message of the same kind, if the next draw has one
+		for _, o := range append(buildGateway(t), buildGateway(t)...) {
+			if reflect.TypeOf(o.obj) == reflect.TypeOf(ex.obj) && !o.mustFit && !ex.mustFit {
+				o := o
+				ex2 = &o
+				break
+			}
+		}
 		if t.Chance(1, 2) {
 			c = codec{fmt.Sprintf("gateway %T request", ex.obj), gwReqBytes(ex.obj), func() any { return freshLike(ex.obj) }, func(o any, b []byte) error {
 				d := types.NewBufDecoder(b)
 				gateway.VerifDecodeRequest(d, o.(gateway.Object))
 				return d.Err()
-			}, func(o any) []byte { return gwReqBytes(o.(gateway.Object)) }, nil}
+			}, func(o any) []byte { return gwReqBytes(o.(gateway.Object)) }, nil, nil}
 		} else {
 			c = codec{fmt.Sprintf("gateway %T response", ex.resp), gwRespBytes(ex.resp), func() any { return freshLike(ex.resp) }, func(o any, b []byte) error {
 				d := types.NewBufDecoder(b)
 				gateway.VerifDecodeResponse(d, o.(gateway.Object))
 				return d.Err()
-			}, func(o any) []byte { return gwRespBytes(o.(gateway.Object)) }, nil}
+			}, func(o any) []byte { return gwRespBytes(o.(gateway.Object)) }, nil, nil}
+		}
+	}
+	if ex2 != nil {
+		if strings.HasSuffix(c.name, "request") {
+			c.second = gwReqBytes(ex2.obj)
+		} else {
+			c.second = gwRespBytes(ex2.resp)
 		}
 	}
 	e.inc("codec.objects")
@@ -460,6 +495,24 @@ func runCodec(s *Session) string {
 		}
 		e.inc("codec.values-compared")
 	}
+	if c.second != nil {
+		// a sequence of messages read into one variable (a client's response
+		// object in a loop): the second arrives as it was sent, whatever the first was
+		var err2 error
+		if p := guardPanic(func() { err2 = c.dec(got, c.second) }); p != "" {
+			e.violate("C10", "rpc-decode-panic", fmt.Sprintf("decoding a second %s into the variable that held the first panicked: %s", c.name, p))
+			return "codec"
+		}
+		if err2 != nil {
+			e.violate(s.reuseProp(), "rpc-second-message-rejected", fmt.Sprintf("%s: a second message (%d bytes) read into the variable that held the first does not decode: %v", c.name, len(c.second), err2))
+			return "codec"
+		}
+		if re := c.again(got); string(re) != string(c.second) {
+			e.violate(s.reuseProp(), "rpc-second-message-differs", fmt.Sprintf("%s: a second message read into the variable that held the first comes out different from what was sent (re-encoding gives %d bytes, sent %d): the first message shows through", c.name, len(re), len(c.second)))
+			return "codec"
+		}
+		e.inc("codec.second-message")
+	}
 	if len(c.enc) == 0 {
 		return "codec"
 	}
@@ -482,3 +535,7 @@ func runCodec(s *Session) string {
 	}
 	return "codec"
 }
+
+// reuseProp: reading a sequence of messages is the transports' business (C19);
+// under the codec profile it is reported as a round trip that fails (C11).
+func (s *Session) reuseProp() string { return "C11" }
